@@ -516,7 +516,18 @@ func genDeterministic(c *core.Ctx) {
 			badImports = append(badImports, imp.Path())
 		}
 	}
-	c.Check(maps == 0 && len(badImports) == 0, "no-nondeterminism", pkg.Syntax[0].Pos(), "no range over a map, no time/rand import (%v)", badImports)
+	// one goroutine: protogen's Plugin collects generated files in an unsynchronised list, in call order
+	gos := 0
+	for _, fd := range c.P.AllFuncDeclsRaw(pkg) {
+		ast.Inspect(fd.Body, func(x ast.Node) bool {
+			if g, ok := x.(*ast.GoStmt); ok {
+				gos++
+				c.Violation(fmt.Sprintf("goroutine/%s#%d", core.FuncName(fd), gos), g.Pos(), "%s starts a goroutine: the order (and, unsynchronised, the content) of the plugin's response then depends on scheduling", core.FuncName(fd))
+			}
+			return true
+		})
+	}
+	c.Check(maps == 0 && len(badImports) == 0 && gos == 0, "no-nondeterminism", pkg.Syntax[0].Pos(), "no range over a map, no time/rand import (%v), no goroutine", badImports)
 	// files without services produce nothing
 	if fd := genFunc(c, "generate"); fd != nil {
 		var newFile *ast.CallExpr
